@@ -47,6 +47,7 @@ def essential_labels(tier):
         "form:ndarray_C",
         "form:array_list",
         "form:string_capacity",
+        "form:field_omitted",
         "place:prehistory",
         "place:explicit_offset",
     ]
@@ -66,7 +67,13 @@ def special_values(draw, spec, cfg, parent="root"):
     if k == "scalar":
         return draw(tg.scalar_values(spec["t"]))
     if k == "struct":
-        return {fn: special_values(draw, ft, cfg, "struct") for fn, ft in spec["fields"]}
+        out = {}
+        for fn, ft in spec["fields"]:
+            if ft["k"] == "scalar" and draw(st.integers(0, 7)) == 0:
+                out[fn] = {"$omit": 1}  # not supplied: reads back as the default 0, also on memory that was used before
+            else:
+                out[fn] = special_values(draw, ft, cfg, "struct")
+        return out
     if k == "array":
         if not tg.is_dynamic(spec["item"]) and draw(st.integers(0, 7)) == 0:
             ndyn = sum(1 for d in spec["shape"] if d is None)
